@@ -227,13 +227,15 @@ def case_set_st(draw):
         # a text variable on the rows of a multitable whose columns are single-column
         # filters: zz9 omits the text values no filtered respondent gave
         nv = draw(st.integers(1, 5))
-        cats = [{"id": i, "name": None, "missing": False, "value": None, "evalue": "t%d" % i}
+        flavour = draw(st.sampled_from(["text", "text", "numeric"]))
+        cats = [{"id": i, "name": None, "missing": False, "value": None,
+                 "evalue": "t%d" % i if flavour == "text" else [i * 10, i * 10 + 10]}
                 for i in range(nv)]
         cats.append({"id": -1, "name": "", "missing": True, "value": None,
                      "evalue": {"?": -1}})
         answers = draw(st.lists(st.sampled_from([c["id"] for c in cats]), min_size=n,
                                 max_size=n))
-        var = {"type": "cat", "flavour": "text", "alias": "r", "name": "R", "cats": cats,
+        var = {"type": "cat", "flavour": flavour, "alias": "r", "name": "R", "cats": cats,
                "answers": answers, "use_order_key": False, "view_insertions": None}
         filters = draw(st.lists(st.lists(st.booleans(), min_size=n, max_size=n), min_size=1,
                                 max_size=3))
@@ -349,7 +351,9 @@ def judge_filtercol(case, rec):
                       "set-shape")
         return
     valid = [c for c in var["cats"] if not c["missing"]]
-    labels = [c["evalue"] for c in valid]
+    labels = [c["evalue"] if isinstance(c["evalue"], str)
+              else "-".join(str(x) for x in c["evalue"]) for c in valid]
+    rec.event("rows=" + var["flavour"])
     for j, keep in enumerate([[True] * sv["n"]] + case["filters"]):
         part = psets[0][j]
         want_u = [sum(1 for a, k in zip(var["answers"], keep) if k and a == c["id"])
